@@ -102,7 +102,11 @@ def mutants(args):
     for m in index:
         if args.only and args.only not in m['name']:
             continue
-        root = scratch_with_patch(os.path.join(mdir, m['name'] + '.patch'))
+        try:
+            root = scratch_with_patch(os.path.join(mdir, m['name'] + '.patch'))
+        except core.HarnessError as e:
+            problems.append('%s: %s' % (m['name'], str(e)[:300]))
+            continue
         try:
             t0 = time.monotonic()
             env = {'HPLSIM_SRC': os.path.join(root, 'src'), 'HPLSIM_NO_VERIFY': '1', 'HPLSIM_EVIDENCE_DIR': os.path.join(root, 'evidence'),
